@@ -185,3 +185,11 @@ Fixpoint flatten (prefix : path) (n : anode) : alist :=
   let 'ANode k t s p v kids := n in
   (prefix, {| e_ty := t; e_set := s; e_persist := p; e_val := v |})
     :: flat_map (fun ch => flatten (prefix ++ [akey ch]) ch) kids.
+
+(** the dictionary after a set whose post-set hook fails is the dictionary after
+    the set; only the status is the hook's *)
+Definition dl_check_set_hookfail (st : status) (p : path) (ty : atype) (v : aval) (l : alist) : status * alist :=
+  match dl_check_set p ty v l with
+  | (KDUMP_OK, l') => (st, l')
+  | r => r
+  end.
